@@ -22,6 +22,7 @@ from __future__ import annotations
 import base64
 import copy
 import json
+import re
 import os
 import random
 import tempfile
@@ -220,6 +221,7 @@ def _toy_chunk(args):
         elif kind == "text":
             cnt("toy.text")
             cnt("class:text|%s" % rec["name"], 0)
+            rec = dict(rec, text=re.sub(r"<U\+([0-9A-F]{4})>", lambda m: chr(int(m.group(1), 16)), rec["text"]))
             for kd, exp in (("key", rec["exp"]), ("addr", rec["expaddr"])):
                 who = drv.toy_who(t, kd, d=rec["d"], comp=True)
                 got = drv.toy_verify(t, who, rec["text"], rec["e"])
